@@ -39,7 +39,7 @@ def vecOpsW (nz : Path → Bool → R) : Ops K R where
     else (lin2 (coefs2 (Gen.split_WR_W sqrt s m e)) par.1 x1, 0)
   noise := nz
   zero := 0
-  agg := fun _ acc _ _ _ => acc
+  agg := fun _ acc _ _ v => (acc.1 + v.1, acc.2)   -- the `_have_H = False` branch of the aggregation loop: increments add
   toU := fun wh _ _ => wh.1
 
 /-- tie to the regenerated kernels: coordinate by coordinate the vector-valued split is the regenerated scalar kernel -/
@@ -328,5 +328,34 @@ theorem root_law_W (hsq : ∀ x : K, 0 ≤ x → sqrt x * sqrt x = x) {xi0 : R} 
   refine ⟨?_, fun q b _ => ?_⟩
   · simp only [LawW, C.smul_left, C.smul_right, h00, hse]; rw [mul_one, hsq T hT]
   · simp only [C.smul_left, h0n]; ring
+
+/-! ### every history of the object model in `'none'` mode -/
+
+theorem vecOpsW_aggAdditive : C03Model.AggAdditive (vecOpsW sqrt nz (R := R)) := by
+  intro ta acc s e v; rfl
+
+variable (a : Arith K)
+
+/-- **variance of every answered increment, `'none'` mode, any history** -/
+theorem answered_var_W (hsq : ∀ x : K, 0 ≤ x → sqrt x * sqrt x = x) (hn : NoiseON C nz) (hc : Sound c) {stF : State K R}
+    (hl : LawW C stF.top stF.tree.s stF.tree.e) (hf : FreshW C nz stF.top [])
+    {ta tb : K} {w u : R} (h : C03Model.Answered (c := c) (o := vecOpsW sqrt nz) a stF ta tb w u) (hlt : c.rnd ta < c.rnd tb) :
+    C.ip w w = c.rnd tb - c.rnd ta := by
+  obtain ⟨ps, hfind, hspec, hwf⟩ := C03Model.answered_final a hc h hlt
+  have hsum := C03Model.answerSpec_W (vecOpsW_aggAdditive sqrt nz) hspec
+  obtain ⟨X, hX, hv⟩ := query_var_W sqrt C nz hsq hn stF.tree stF.top [] _ _ hwf hl hf hfind
+  have : X = w := Option.some.inj (hX.symm.trans hsum)
+  rw [← this]; exact hv
+
+/-- **independent increments, `'none'` mode, any history** -/
+theorem answered_indep_W (hsq : ∀ x : K, 0 ≤ x → sqrt x * sqrt x = x) (hn : NoiseON C nz) (hc : Sound c) {stF : State K R}
+    (hl : LawW C stF.top stF.tree.s stF.tree.e) (hf : FreshW C nz stF.top []) {ta tb tc td : K} {w1 u1 w2 u2 : R}
+    (h1 : C03Model.Answered (c := c) (o := vecOpsW sqrt nz) a stF ta tb w1 u1)
+    (h2 : C03Model.Answered (c := c) (o := vecOpsW sqrt nz) a stF tc td w2 u2)
+    (l1 : c.rnd ta < c.rnd tb) (l2 : c.rnd tc < c.rnd td) (hord : c.rnd tb ≤ c.rnd tc) : C.ip w1 w2 = 0 := by
+  obtain ⟨p1, f1, sp1, hwf⟩ := C03Model.answered_final a hc h1 l1
+  obtain ⟨p2, f2, sp2, _⟩ := C03Model.answered_final a hc h2 l2
+  exact queries_uncorrelated_W sqrt C nz hsq hn hwf hl hf hord f1 f2
+    (C03Model.answerSpec_W (vecOpsW_aggAdditive sqrt nz) sp1) (C03Model.answerSpec_W (vecOpsW_aggAdditive sqrt nz) sp2)
 
 end C04ModelW
